@@ -60,7 +60,8 @@ CacheHas(w) == Has(Pre.cache, w) /\ Pre.cache[w].c = w
 Competes(k, i, w) == \E k2 \in ScopeI : \E j \in DOMAIN rules[k2].tg :
                         /\ <<k2, j>> # <<k, i>>
                         /\ ~HoldsPre(rules[k2].tg[j], w)
-                        /\ \E e2 \in g.ever0 : e2.rid = RuleId(rules[k2]) /\ e2.outs[j] = w
+                        /\ \/ \E e2 \in g.ever0 : e2.rid = RuleId(rules[k2]) /\ e2.outs[j] = w
+                           \/ \E sh \in DOMAIN HistOf(Pre.hist, RuleId(rules[k2])) : Pre.hist[RuleId(rules[k2])][sh][j] = w
 MustNotRun(k) ==
   LET r == rules[k] IN
   /\ Reached(r)
